@@ -68,12 +68,12 @@ def urlAccOf (proj : ProjectT) (tool : ToolT) : UrlAcc :=
       custom := tool.urls.getD [] }
   else proj.urls.foldl urlStep {}
 
-def readmeTriple (proj : ProjectT) (tool : ToolT) (rs : Option String) :
+def readmeTriple (proj : ProjectT) (tool : ToolT) (_rs : Option String) :
     List String × Option String × Option String :=
   match proj.readme with
   | some (.path p) => if p = "" then (tool.readmes.filter (· ≠ ""), none, none) else ([p], none, none)
   | some (.file p ct) => ([p], some ct, none)
-  | some (.text _ ct) => ([], some ct, rs)
+  | some (.text t ct) => ([], some ct, some t)
   | none => (tool.readmes.filter (· ≠ ""), none, none)
 
 def rawLicenseOf (proj : ProjectT) (tool : ToolT) : String :=
